@@ -456,8 +456,10 @@ def jobs(tier, seed):
             if k in (3, N - 1, N + 1) or tier != "quick":
                 # lazily built table of a generator handed over in an arbitrary scaling
                 js.append(Job("glue/p%d/mulgen/k%d" % (p, k), "harness.c07:glue", p=p, ab=ab, what="mul_gen", k=k))
-        for (ka, t, kb) in ((1, 1, 1), (3, 1, -3), (-2, 1, 5), (2, -1, 3), (-8, 1, -6), (-9, 1, -7), (3, 2, 2), (0, 1, 4), (5, 1, 0)):
-            if tier == "quick" and (ka, t, kb) not in ((3, 1, -3), (2, -1, 3), (-8, 1, -6), (3, 2, 2)):
+        # every sign combination of the two digit columns occurs, also with Q = +-P
+        for (ka, t, kb) in ((1, 1, 1), (1, 1, -1), (-1, 1, 1), (-1, -1, 1), (3, 1, -3), (-2, 1, 5), (2, -1, 3),
+                            (-8, 1, -6), (-9, 1, -7), (3, 2, 2), (0, 1, 4), (5, 1, 0)):
+            if tier == "quick" and (ka, t, kb) not in ((1, 1, -1), (-1, 1, 1), (3, 1, -3), (2, -1, 3), (-9, 1, -7), (3, 2, 2)):
                 continue
             js.append(Job("glue/p%d/muladd/%d_%d_%d" % (p, ka, t, kb), "harness.c07:glue", p=p, ab=ab,
                           what="mul_add", k=(ka, t, kb)))
